@@ -124,7 +124,7 @@ let eval (op : string) (args : sx list) : sx list =
   | "refs_slice", [mol; st; en; L refs] ->
     sx_of_out (fun rs -> [L (List.map sx_of_ref rs)])
       (refs_slice (bytes_of_sx mol) (z_of_sx st) (z_of_sx en) (List.map ref_of_sx refs))
-  | "alias", _ | "alias_seq", _ -> [A "same"] (* the frame theorems: nothing the caller holds changes *)
+  | "alias", _ | "alias_seq", _ | "alias_repair", _ -> [A "same"] (* the frame theorems: nothing the caller holds changes *)
   | _ -> [A "unknown-op"]
 
 let () =
